@@ -553,3 +553,242 @@ fn c07_writes_direct_flag() {
     std::mem::forget(ns);
     std::mem::forget(f);
 }
+
+// ================================================================================================
+// C04 / C15 (synchronous modes, State level): the real std::io::BufWriter - the buffer of
+// WriteMode::BufferDontFlush / BufferAndFlush - runs over a byte-recording sink instead of a File.
+// What is decided is the crate's use of it: write_buffer -> (buffer) -> flush() / shutdown().
+struct ByteW;
+impl Write for ByteW {
+    fn write(&mut self, b: &[u8]) -> std::io::Result<usize> {
+        let mut i = 0;
+        while i < b.len() {
+            vs::ev_push(b[i] as u32);
+            i += 1;
+        }
+        Ok(b.len())
+    }
+    fn flush(&mut self) -> std::io::Result<()> {
+        vs::cell_inc(7);
+        Ok(())
+    }
+}
+fn sink_state(buffer_cap: Option<usize>) -> State {
+    let cfg = mk_config(FileSpec::default().directory("d").basename("b").suffix("l").suppress_timestamp(), false, WriteMode::Direct);
+    let w: Box<dyn Write + Send> = match buffer_cap {
+        Some(cap) => Box::new(BufWriter::with_capacity(cap, ByteW)),
+        None => Box::new(ByteW),
+    };
+    State {
+        config: cfg,
+        inner: Inner::Active(
+            Some(RotationState {
+                naming_state: NamingState::NumbersRCurrent(0),
+                roll_state: RollState::Size { max_size: u64::MAX, current_size: 0 },
+                cleanup: Cleanup::Never,
+                o_cleanup_thread_handle: None,
+            }),
+            w,
+            PathBuf::from("c"),
+        ),
+    }
+}
+// op: 0 = flush, 1 = shutdown
+fn sink_case(buffer_cap: Option<usize>, op: u8) {
+    vs::link_all();
+    vs::cell_set(0, 0);
+    let mut state = sink_state(buffer_cap);
+    let l1: usize = kani::any();
+    let l2: usize = kani::any();
+    kani::assume(l1 <= 5 && l2 <= 5);
+    let r1 = [b'a'; 5];
+    let r2 = [b'b'; 5];
+    // results are forgotten, not dropped: io::Error's drop glue does not terminate in CBMC
+    std::mem::forget(state.write_buffer(&r1[..l1]));
+    std::mem::forget(state.write_buffer(&r2[..l2]));
+    // before flush: what reached the sink is a prefix of the stream (nothing out of order, nothing twice)
+    let n0 = vs::ev_len();
+    assert!(n0 <= l1 + l2);
+    let mut i = 0;
+    while i < n0 {
+        assert!(vs::ev_get(i) == if i < l1 { b'a' as u32 } else { b'b' as u32 });
+        i += 1;
+    }
+    if buffer_cap.is_none() {
+        assert!(n0 == l1 + l2); // direct mode: present as soon as the call returned
+    }
+    if op == 0 {
+        let r = state.flush();
+        let ok = r.is_ok();
+        std::mem::forget(r);
+        assert!(ok);
+    } else {
+        state.shutdown();
+    }
+    // after flush / shutdown returned: every accepted byte is in the sink, once, in order
+    let n = vs::ev_len();
+    assert!(n == l1 + l2);
+    let mut i = 0;
+    while i < n {
+        assert!(vs::ev_get(i) == if i < l1 { b'a' as u32 } else { b'b' as u32 });
+        i += 1;
+    }
+    kani::cover!(buffer_cap.is_none() || n0 < n, "something was still buffered before flush/shutdown");
+    kani::cover!(buffer_cap.is_none() || (n0 > 0 && n0 < n), "first record partly or fully out, second still buffered");
+    kani::cover!(l1 == 0 && l2 == 5, "empty record followed by a record larger than the buffer");
+    std::mem::forget(state);
+}
+macro_rules! sink_instance {
+    ($name:ident, $cap:expr, $op:expr) => {
+        #[kani::proof]
+        #[kani::unwind(13)]
+        #[kani::stub(verif_support::reexp::catch_unwind, verif_support::stub_cu)]
+        #[kani::stub(chrono::Local::now, stub_now)]
+        #[kani::stub(State::initialize, cut_initialize)]
+        #[kani::stub(State::mount_next_linewriter_if_necessary, rec_mount_next_quiet)]
+        #[kani::stub(crate::util::eprint_err, stub_eprint_err_ev)]
+        #[kani::stub(list_and_cleanup::CleanupThreadHandle::shutdown, cut_cleanup_thread_shutdown)]
+        fn $name() {
+            sink_case($cap, $op);
+        }
+    };
+}
+// `Option<CleanupThreadHandle>` is None in these states but its discriminant is not folded: the
+// Some arm (message to and join of the cleanup thread) would be explored.
+fn cut_cleanup_thread_shutdown(_h: list_and_cleanup::CleanupThreadHandle) {
+    unreachable!("VERIF-CUT CleanupThreadHandle::shutdown without a cleanup thread")
+}
+fn rec_mount_next_quiet(_s: &mut State, _force: bool) -> Result<(), FlexiLoggerError> {
+    Ok(())
+}
+// @verif prop=C04,C15 tier=quick timeout=900 bounds=BufWriter(capacity-4)-over-recording-sink,2-records-of-symbolic-length<=5,flush()
+// Buffered synchronous mode: once State::flush() has returned, every byte of every record accepted before is in the sink exactly once and in order (records below, at and above the buffer capacity); before that the sink holds a prefix.
+sink_instance!(c04_buffered_flush, Some(4), 0);
+// @verif prop=C04,C15 tier=probe timeout=900 bounds=same,shutdown()
+// BUDGET GATE: State::shutdown drops the Result of BufWriter::flush (`.ok()`): the io::Error drop glue does not terminate (> 12 GB); not registered.
+// ... the same after State::shutdown().
+sink_instance!(c04_buffered_shutdown, Some(4), 1);
+// @verif prop=C04,C15 tier=quick timeout=900 bounds=direct-writer(no-buffer),2-records-of-symbolic-length<=5,shutdown()
+// Direct mode: every record is in the sink as soon as write_buffer returned; the delivered byte sequence equals the reference stream - the same reference the buffered instances are decided against, so the contents do not depend on the write mode.
+sink_instance!(c04_direct_shutdown, None, 1);
+
+// ================================================================================================
+// initialize_with_rotation (start of a run, number namings): which file is opened, which index is
+// remembered, is the earlier current file rotated away first. Leaves by contract:
+//   get_highest_index   -> cell 2 (0 = none, else idx+1)
+//   index_for_rcurrent  -> records (o_idx is None, rotate flag) in cells 3/4, returns cell 5
+//   number_infix        -> records idx in cell 6, returns "rN"
+//   open_log_file       -> records the last byte of the infix it is asked for in cell 8
+//   RollState::new      -> contract stub (decided in c08_rollstate_new_seeding)
+fn stub_highest_init(_fs: &FileSpec) -> Option<u32> {
+    let v = vs::cell_get(2);
+    if v == 0 {
+        None
+    } else {
+        Some((v - 1) as u32)
+    }
+}
+fn stub_ifr_init(_c: &FileLogWriterConfig, o_idx: Option<u32>, rotate: bool) -> Result<u32, std::io::Error> {
+    vs::cell_set(3, if o_idx.is_none() { 1 } else { 2 });
+    vs::cell_set(4, if rotate { 1 } else { 2 });
+    Ok(vs::cell_get(5) as u32)
+}
+fn stub_number_infix_init(idx: u32) -> String {
+    vs::cell_set(6, idx as u64 + 1);
+    let mut s = String::with_capacity(2);
+    s.push('r');
+    s.push('N');
+    s
+}
+fn stub_open_init(_c: &FileLogWriterConfig, o_infix: Option<&str>) -> Result<(Box<dyn Write + Send>, PathBuf), std::io::Error> {
+    let b = o_infix.unwrap_or("").as_bytes();
+    vs::cell_set(8, if b.is_empty() { 0 } else { b[b.len() - 1] as u64 });
+    Ok((Box::new(RecW { id: 1 }), PathBuf::from("n")))
+}
+fn stub_rollstate_new(criterion: Criterion, _append: bool, _p: &Path) -> Result<RollState, std::io::Error> {
+    Ok(match criterion {
+        Criterion::Size(max_size) => RollState::Size { max_size, current_size: 0 },
+        _ => RollState::Size { max_size: 0, current_size: 0 },
+    })
+}
+fn cut_latest_ts(_c: &FileLogWriterConfig, _r: bool, _f: &InfixFormat) -> DateTime<Local> {
+    unreachable!("VERIF-CUT latest_timestamp_file in a number-naming instance")
+}
+fn cut_start_cleanup_thread(_c: Cleanup, _f: FileSpec, _i: &InfixFilter, _d: bool) -> Result<list_and_cleanup::CleanupThreadHandle, std::io::Error> {
+    unreachable!("VERIF-CUT start_cleanup_thread (Cleanup::Never)")
+}
+fn init_case(direct: bool) {
+    vs::link_all();
+    let append: bool = kani::any();
+    let highest_plus1: u64 = kani::any();
+    kani::assume(highest_plus1 <= 1000);
+    vs::cell_set(2, highest_plus1);
+    let ifr_result: u64 = kani::any();
+    kani::assume(ifr_result <= 1000);
+    vs::cell_set(5, ifr_result);
+    let cfg = mk_config(FileSpec::default().directory("d").basename("b").suffix("l").suppress_timestamp(), append, WriteMode::Direct);
+    let rc = RotationConfig {
+        criterion: Criterion::Size(100),
+        naming: if direct { Naming::NumbersDirect } else { Naming::Numbers },
+        cleanup: Cleanup::Never,
+    };
+    let state = State::new(cfg, None, false);
+    let r = state.initialize_with_rotation(&rc, false);
+    match &r {
+        Ok(Inner::Active(Some(rs), _, _)) => match rs.naming_state {
+            NamingState::NumbersDirect(idx) => {
+                assert!(direct);
+                // appending continues in the highest existing file; otherwise a *new* number above all existing ones
+                let want = if highest_plus1 == 0 { 0 } else if append { highest_plus1 - 1 } else { highest_plus1 };
+                assert!(idx as u64 == want);
+                assert!(vs::cell_get(6) == want + 1); // the name that is opened is the rendering of that index
+                assert!(vs::cell_get(8) == b'N' as u64);
+            }
+            NamingState::NumbersRCurrent(idx) => {
+                assert!(!direct);
+                // the index comes from index_for_rcurrent(None, rotate = !append): without append the
+                // earlier current file is rotated away first, with append it is continued
+                assert!(vs::cell_get(3) == 1);
+                assert!(vs::cell_get(4) == if append { 2 } else { 1 });
+                assert!(idx as u64 == ifr_result);
+                assert!(vs::cell_get(8) == b'T' as u64); // "rCURRENT" is what is opened
+            }
+            _ => assert!(false),
+        },
+        _ => assert!(false),
+    }
+    kani::cover!(highest_plus1 == 1 && !append, "restart without append, highest existing index is 0");
+    kani::cover!(highest_plus1 == 0, "empty directory");
+    kani::cover!(append && highest_plus1 == 8, "append to the highest existing file");
+    std::mem::forget(r);
+    std::mem::forget(state);
+}
+macro_rules! init_instance {
+    ($name:ident, $direct:expr) => {
+        #[kani::proof]
+        #[kani::unwind(10)]
+        #[kani::stub(verif_support::reexp::catch_unwind, verif_support::stub_cu)]
+        #[kani::stub(chrono::Local::now, stub_now)]
+        #[kani::stub(get_creation_timestamp, stub_creation_ts)]
+        #[kani::stub(numbers::get_highest_index, stub_highest_init)]
+        #[kani::stub(numbers::index_for_rcurrent, stub_ifr_init)]
+        #[kani::stub(numbers::number_infix, stub_number_infix_init)]
+        #[kani::stub(open_log_file, stub_open_init)]
+        #[kani::stub(RollState::new, stub_rollstate_new)]
+        #[kani::stub(timestamps::creation_timestamp_of_currentfile, cut_ts_current)]
+        #[kani::stub(timestamps::infix_from_timestamp, cut_infix_from_ts)]
+        #[kani::stub(timestamps::latest_timestamp_file, cut_latest_ts)]
+        #[kani::stub(list_and_cleanup::start_cleanup_thread, cut_start_cleanup_thread)]
+        #[kani::stub(list_and_cleanup::remove_or_compress_too_old_logfiles, stub_cleanup)]
+        #[kani::stub(crate::util::eprint_err, stub_eprint_err_ev)]
+        fn $name() {
+            init_case($direct);
+        }
+    };
+}
+// @verif prop=C06,C01 tier=quick timeout=900 bounds=Naming::NumbersDirect,append-symbolic,highest-existing-index<1000-or-none
+// Start of a run with NumbersDirect: with append the highest existing numbered file is continued, without append a new number strictly above every existing one is opened (0 only in an empty directory) - an existing file is never re-opened for truncation.
+init_instance!(c06_init_numbers_direct, true);
+// @verif prop=C06,C01 tier=quick timeout=900 bounds=Naming::Numbers,append-symbolic
+// Start of a run with Numbers: the index is asked from index_for_rcurrent with "unknown" and rotate = !append (without append the earlier current file is rotated away before rCURRENT is opened, with append it is continued), and rCURRENT is what gets opened.
+init_instance!(c06_init_numbers, false);
